@@ -294,6 +294,46 @@ def run(prog, ctx):
     from . import C10
     C10.check_extremes(prog, res, "C15.X")
     res.functions_analysed = len(analysed)
+    # ---------------- C15.C a centroid list travels with its own weight: wherever a digest is rebuilt from another digest's centroid list
+    # (clone, freeze, unfreeze, hand-written copies), the weight handed along is that list's weight -- not the total that also counts
+    # values still waiting in the buffer (they would be counted twice once the copy folds its buffer).  By value.
+    n_cw = 0
+    for f in sorted((x for x in prog.fns.values() if not x.promoted and "tdigest::sketch::TDigest" in x.id), key=lambda x: x.id):
+        sf = None
+        sites_ = []
+        for b, site in f.calls():
+            if (site.get("callee") or "").endswith("TDigestMut::make") and len(site["args"]) >= 7:
+                sites_.append((b, "t", site["args"][4], site["args"][5], site.get("span")))
+        for b in f.blocks:
+            if b.cleanup:
+                continue
+            for i_, st in enumerate(b.stmts):
+                if st[0] == "=" and st[2][0] == "agg" and isinstance(st[2][1], (list, tuple)) and st[2][1][0] == "adt" and st[2][1][1] in (
+                        "tdigest::sketch::TDigestMut", "tdigest::sketch::TDigest"):
+                    ops = dict(zip(st[2][1][4], st[2][2]))
+                    if "centroids" in ops and "centroids_weight" in ops:
+                        sites_.append((b.idx, i_, ops["centroids"], ops["centroids_weight"], st[3]))
+        for (b, pos, c_op, w_op, span) in sites_:
+            sf = sf or Sym(prog, f)
+            try:
+                ce = sf.at(b, pos).operand(c_op)
+                we = sf.at(b, pos).operand(w_op)
+            except Exception:
+                continue
+            while ce[0] == "call" and ce[1].rsplit("::", 1)[-1] in ("clone", "to_vec", "to_owned") and ce[2]:
+                ce = ce[2][0]
+            if not (ce[0] == "field" and ce[2] == "centroids" and ce[1][0] == "param"):
+                continue        # not another digest's whole centroid list
+            owner_show = show(ce[1])
+            n_cw += 1
+            env = {"@prog": prog, owner_show + ".centroids_weight": 10, "len(%s.buffer)" % owner_show: 3, owner_show + ".buffer": [1.0, 2.0, 3.0]}
+            try:
+                got = formula.evaluate(we, env)
+            except (formula.Uneval, TypeError, IndexError):
+                got = None
+            res.tri(None if got is None else got == 10, "C15.C", "C15.C|%s" % f.id, "%s rebuilds a digest from `%s.centroids` with weight %s: with 3 values buffered and centroids "
+                    "of weight 10 that is %r, not 10 -- the buffered values are counted twice when the copy folds its buffer" % (f.id, owner_show, show(we)[:60], got), f.id, span)
+    res.rule("C15.C", n_cw, 1, "digests rebuilt from another digest's centroid list")
     res.explanation = ("formulas and path facts of the t-digest compression (scale function, merge criterion, centroid addition, ordering, capacity) "
                        "extracted from MIR and compared with the published merging t-digest / k2 scale function on grids")
     res.not_decided = "the bound of 2k+30 centroids and the rank-error bound (numeric consequences of the loop over all data)"
